@@ -95,6 +95,8 @@ def run(ctx):
     # ---------------------------------------------------------------- coverage
     per_stream, outcomes, feats, nest, layout, art = {}, {}, {}, {}, {}, {}
     arity, arity_ctx, arity_builtins = {}, {}, set()
+    pat_dim = {"route": {}, "pos": {}, "form": {}, "type": {}, "pat": {}}
+    pat_accept, pat_outcome_by_route = {}, {}
     for r in R:
         _, stream, idx, outs, tag = (r + [""] * 5)[:5]
         per_stream[stream] = per_stream.get(stream, 0) + 1
@@ -129,16 +131,30 @@ def run(ctx):
             arity_ctx[kv.get("ctx", "?")] = arity_ctx.get(kv.get("ctx", "?"), 0) + 1
             if kind in ("builtin", "builtin-method", "builtin-trait-method"):
                 arity_builtins.add(" ".join(tag.split(" ")[1:]).split(" declared=")[0])
+    for r in R:
+        if r[1] != "pat-scrut" or len(r) < 5:
+            continue
+        # tag: "pat=<pattern> type=<type> route=<route> pos=<position> form=<form>"
+        kv = dict(x.split("=", 1) for x in vlib.unesc(r[4]).split(" ") if "=" in x)
+        for d in pat_dim:
+            pat_dim[d][kv.get(d, "?")] = pat_dim[d].get(kv.get(d, "?"), 0) + 1
+        verdict = ("accepted" if "compile:ok" in r[3] else "typer" if "compile:err:typer" in r[3] else
+                   "match-compiler" if "compile:err:compile" in r[3] else "parser" if "compile:err:parser" in r[3] else
+                   "panic" if "compile:panic" in r[3] else "other")
+        o = pat_outcome_by_route.setdefault(kv.get("route", "?"), {})
+        o[verdict] = o.get(verdict, 0) + 1
+        if verdict == "accepted" and kv.get("pos") == "top" and kv.get("form") == "match":
+            pat_accept.setdefault(kv.get("type", "?"), set()).add(kv.get("pat", "?"))
     n_cases = len(R) + len(TIE) + len([r for r in F if r[3] in ("hang", "abort")])
     genok = outcomes.get("gen-ok", {})
     accepted = genok.get("compile:ok", 0)
     samples = [{"stream": r[1], "index": int(r[2]), "tag": vlib.unesc(r[3])[:200], "input": vlib.unesc(r[4])[:1200]} for r in S[:40]
-               if r[1] in ("gen-ok", "gen-ill", "layout", "mut-tokens", "artifact", "call-arity")][:6]
+               if r[1] in ("gen-ok", "gen-ill", "layout", "mut-tokens", "artifact", "call-arity", "pat-scrut")][:7]
     distinct = set()
     for r in R:
         if r[1] in ("gen-ok", "gen-ill", "progen") and "compile:err:parser" not in r[3]:
             distinct.add((r[1], r[2]))
-        elif r[1] in ("nest", "layout", "artifact", "known-artifact-core-ir", "occurs", "call-arity"):
+        elif r[1] in ("nest", "layout", "artifact", "known-artifact-core-ir", "occurs", "call-arity", "pat-scrut"):
             distinct.add((r[1], r[4]))
     cov = {
         "evaluations": n_cases, "distinct_nontrivial": len(distinct),
@@ -166,6 +182,19 @@ def run(ctx):
             "cases_per_callee_kind_and_arity_relation": arity, "cases_per_context": arity_ctx,
             "outcomes": outcomes.get("call-arity", {}),
         },
+        "pattern_scrutinee_catalogue": {
+            "what": "deterministic catalogue (harness/src/patcat.rs): pattern form x scrutinee type x route by which the scrutinee's type becomes known "
+                    "(concrete when the pattern is checked: parameter, annotated let, literal; or an inference variable resolved later / never: call, generic call, "
+                    "method, trait method, closure parameter resolved by a later call / a later use / a generic higher-order function / never, closure call, field of a "
+                    "generic struct, ref_get / vec_get / array_get, if / match / block join, binder of a tuple or constructor pattern, type parameter) x position of the "
+                    "pattern (top, tuple component, constructor argument, struct field, nested) x form (match with catch-all, only arm, let); every text goes "
+                    "through parse, compile, check_package, build_package, link_cores (when build succeeds) and the three queries at its last 12 positions",
+            "cases": per_stream.get("pat-scrut", 0),
+            "cases_per_dimension": pat_dim,
+            "compile_verdict_per_route": pat_outcome_by_route,
+            "patterns_accepted_per_scrutinee_type_at_top_of_a_match_on_some_route": {k: sorted(v) for k, v in sorted(pat_accept.items())},
+            "outcomes": outcomes.get("pat-scrut", {}),
+        },
         "chunks_abandoned": len(ABANDONED),
         "findings_by_signature": [{"signature": g["sig"], "hits": g["n"]} for g in groups.values()],
         "tie": {"op_sequences": n_tie, "equal": n_tie_eq, "samples": tie_samples},
@@ -174,7 +203,8 @@ def run(ctx):
         "what_is_proved": "peek_stuck_eof, stuck_reported_once, loop_terminates, dispatch_progress, file_consumes_all, expect_keeps_recovery_token, "
                           "exprFirst_rejects_eof, error_range_is_token_range (+ StepOK closure lemmas for every primitive)",
         "what_is_searched": "panic / abort / stack overflow / hang / Err without diagnostic / diagnostic range outside the text, over random and mutated texts, "
-                            "generated well- and ill-typed programs, nesting to depth 200, package layouts, altered artefacts, and the call-arity catalogue "
+                            "generated well- and ill-typed programs, nesting to depth 200, package layouts, altered artefacts, the pattern x scrutinee-type x "
+                            "type-provenance catalogue (every pattern form against every scrutinee type, whether that type is concrete or still being inferred when the pattern is checked), and the call-arity catalogue "
                             "(every callee kind incl. every builtin of the real initial environment × every argument count × every call context, through every entry point incl. the queries)",
     }
     ctx.assumptions += [
@@ -186,5 +216,5 @@ def run(ctx):
     ]
     tb = ["Lean 4 kernel", "axioms: " + ",".join(ctx.proof["axioms"] or ["none"]),
           "tools/extract.py extract_parser_consts / extract_recovery (regex over parser.rs, expr.rs, file.rs)",
-          "harness/src/c04.rs, c04gen.rs, arity.rs, crash.rs, jsonspan.rs", "tools/props/c04.py"]
+          "harness/src/c04.rs, c04gen.rs, arity.rs, patcat.rs, crash.rs, jsonspan.rs", "tools/props/c04.py"]
     return ctx.finish(level, cov, tb, "lake build GomlVerif.Props.C04 && #print axioms; gv c04 (child processes) | gomlmodel c04")
